@@ -238,6 +238,17 @@ def install(P):
                     return r
                 out.append(r.fields[0])
             return Ok(VecV(out))
+        if h in ("HashSet", "BTreeSet"):
+            if tv.decide_kind(ctx) != "array":
+                return invalid_type(tv, "sequence")
+            from . import summ_coll
+            m = summ_coll.AssocV(h == "BTreeSet", True)
+            for e in tv.elems or []:
+                r = deser_type(ctx, a[0], e)
+                if r.variant == "Err":
+                    return r
+                summ_coll.insert(ctx, m, r.fields[0], UNIT)
+            return Ok(m)
         if h in ("Map", "Table", "Value", "IgnoredAny", "HashMap", "BTreeMap") and (h != "HashMap" or True):
             if h in ("Map", "Table"):
                 if tv.decide_kind(ctx) != "table":
@@ -269,6 +280,16 @@ def install(P):
     P.deser_type = deser_type
     P.type_hooks = {}
     P.type_defaults = {}
+    # Default for free-form TOML tables: an empty table
+    prev_default = P.default_of
+
+    def default_of(ctx, t):
+        h = re.sub(r"<.*", "", t.strip()).split("::")[-1]
+        if h in ("Map", "Table"):
+            return Opaque("toml", TVal("empty", kind="table", entries=[], ident=z3.IntVal(0)))
+        return prev_default(ctx, t)
+    P.default_of = default_of
+    P.summaries["Default::default"] = lambda ctx, c: P.default_of(ctx, c.resolve(c.selfty or ""))
 
     def visitor_ty(c):
         return norm_ty(c.gen)
